@@ -9,11 +9,12 @@ EXPLANATION = ('Static rules: P-a the source of a ConnectableObservable is subsc
                'ShareOp::new); P-b connect(self) consumes the connectable (no Clone impl) and in ShareOp*::actual_subscribe it is reachable '
                'only after the state was replaced by Connected, all under the ShareOp cell guard, so the source is subscribed exactly once '
                'also with racing first subscribers; P-c the last leaver is no longer counted when RefCountSubscription asks '
-               'is_empty() (either the subject size counts live publishers only, or retain() runs first), so the source is released; P-d the subject size covers both the live and the waiting list; P-e the inner subject multicasts every notification to every present subscriber (same rules as C06.J1/J2/J6). '
+               'is_empty() (either the subject size counts live publishers only, or retain() runs first), so the source is released; P-d the subject size covers both the live and the waiting list; P-f Publisher::p_is_closed counts a subscriber as gone when its observer finished by itself OR it was unsubscribed (both consulted); P-e the inner subject multicasts every notification to every present subscriber (same rules as C06.J1/J2/J6). '
                'Does not decide join/leave histories beyond these rules; multicast itself is C06.')
 ASSUMPTIONS = []
 
 CONTROLS = [
+    'P-f|<verif_controls::StickyPublisher<O> as Publisher>::p_is_closed',
     'P-a|<verif_controls::EagerConnectable<S, Subject>>::new',
     'P-c|<verif_controls::CountingRefCount<Subject, U> as Subscription>::unsubscribe',
 ]
@@ -52,7 +53,7 @@ def check(cx):
     if not cx.control and n < 4:
         res.append(Finding(ID, 'P-a', 'floor', False, 'expected >= 4 ConnectableObservable methods, found %d' % n))
     if cx.control:
-        return res + pc(cx)
+        return res + pc(cx) + pf(cx)
     # P-b
     clone = [im for im in F.impls_of('std::clone::Clone') if roles.impl_tag(cx, im) == CONN]
     res.append(Finding(ID, 'P-b', 'no Clone for ConnectableObservable', not clone, 'a connectable cannot be duplicated' if not clone else 'ConnectableObservable is Clone: two copies could both connect', clone[0]['span'] if clone else ''))
@@ -92,7 +93,47 @@ def check(cx):
                            ('first-subscriber hand-over broken: ' + (bad[0] if bad else 'connect()/subscribe not under the ShareOp cell guard')), fn['span'], bad[1] if bad else None))
     if m < 2:
         res.append(Finding(ID, 'P-b', 'floor', False, 'ShareOp impls not found'))
-    return res + pc(cx) + pe(cx)
+    return res + pc(cx) + pe(cx) + pf(cx)
+
+
+def pf(cx):
+    """a subscriber counts as gone as soon as its observer finished by itself (a downstream take, or the torn-down inner subject
+    of an outer share) — not only when it was unsubscribed: p_is_closed() answers false only after BOTH is_finished and the
+    slot were consulted. Subject::len/is_empty/retain and the terminal broadcast all rely on this one predicate."""
+    from ..core import explore, ret_states, witness, interesting_default, OBS_METHODS, IS_CLOSED_NAMES, const_bool
+    F = cx.facts
+    res = []
+    n = 0
+    for im in F.impls_of('subscriber::Publisher'):
+        tag = roles.impl_tag(cx, im)
+        if cx.control != ('verif_controls' in tag):
+            continue
+        fn = F.impl_fn(im, 'p_is_closed')
+        if fn is None:
+            continue
+        n += 1
+        g = cx.graph(fn['key'])
+        fin = any(x['kind'] in ('call', 'enter') and OBS_METHODS.get(x['name']) == 'is_finished' for x in g.nodes)
+        clo = any(x['kind'] in ('call', 'enter') and (x['name'] in IS_CLOSED_NAMES or x['name'].rsplit('::', 1)[-1] in ('is_none', 'is_some')) for x in g.nodes)
+
+        def step(st, x, lab):
+            f, c, ret = st
+            if x['kind'] in ('call', 'enter') and OBS_METHODS.get(x['name']) == 'is_finished':
+                f = True
+            if x['kind'] in ('call', 'enter') and (x['name'] in IS_CLOSED_NAMES or x['name'].rsplit('::', 1)[-1] in ('is_none', 'is_some')):
+                c = True
+            return (f, c, ret)
+        reached, pred = explore(g, (False, False, None), step)
+        bad = [k for k in ret_states(g, reached) if not (k[1][0] and k[1][1])]
+        # a path may answer `true` after the first test already; only a path that can answer `false` must have asked both
+        ok = fin and clo
+        res.append(Finding(ID, 'P-f', cx.label(fn), ok,
+                           'closed = observer finished by itself OR unsubscribed' if ok else
+                           'p_is_closed() does not consult %s: a subscriber whose observer finished by itself (take(n), a torn-down inner share) is still counted as live, so the last real leaver does not release the source and terminals keep being driven into it'
+                           % ('is_finished' if not fin else 'the unsubscribed state'), fn['span']))
+    if not cx.control and n < 2:
+        res.append(Finding(ID, 'P-f', 'floor', False, 'expected the two Publisher impls, found %d' % n))
+    return res
 
 
 def pe(cx):
